@@ -3,6 +3,7 @@
 From Coq Require Import ZArith.
 From OCI Require Import Machine Checkers.
 From OCI.proofs Require Import ArithOk Trace InvKnown ChkKnown.
+From OCI.proofs Require Import GapFree.
 Open Scope N_scope.
 
 Check known_C11 : forall e, known_env e -> forall progs, wf_progs progs -> forall sched,
@@ -17,8 +18,26 @@ Print Assumptions c11_known_kinds.
 
 (** the wrapper over an arbitrary iterator (exact, inexact and unbounded size hints) *)
 From OCI.proofs Require Import IterBase ChkIter IterC11.
-Theorem c11_wrapped_iterator : forall e, iter_env e -> forall progs, wf_progs progs -> forall sched,
+Theorem c11_wrapped_iterator : forall e, iter_env e -> fused e -> forall progs, wf_progs progs -> forall sched,
   nowrap (c_labels (exec e (init progs) sched)) ->
   chk_C11 e (c_trace (exec e (init progs) sched)) = true.
 Proof. exact iter_C11. Qed.
 Print Assumptions c11_wrapped_iterator.
+
+(** every wrapped iterator, fused or not, whose size hint is not exact (inexact or unbounded): the length
+    queries answer zero once the completed flag is up and "unknown" before, and a zero is definitive.  (With
+    an EXACT size hint and a wrapped iterator that answers None prematurely the claim is false: the query
+    answers zero although elements remain.) *)
+Theorem c11_wrapped_iterator_any_iterator : forall e, iter_env e -> e_hint e <> HExact -> forall progs, wf_progs progs -> forall sched,
+  nowrap (c_labels (exec e (init progs) sched)) ->
+  chk_C11 e (c_trace (exec e (init progs) sched)) = true.
+Proof. exact iter_C11_inexact. Qed.
+Print Assumptions c11_wrapped_iterator_any_iterator.
+
+(** a wrapped iterator that is not fused, any size hint: the length queries are truthful on every run on which the wrapped next() has not yet answered None although elements remain *)
+Theorem c11_wrapped_iterator_until_first_gap : forall e, iter_env e -> forall progs, wf_progs progs -> forall sched,
+  nowrap (c_labels (exec e (init progs) sched)) ->
+  gap_free e (s_calls (c_sh (exec e (init progs) sched))) ->
+  check_prop 11 e (c_trace (exec e (init progs) sched)) (c_labels (exec e (init progs) sched)) = true.
+Proof. exact iter_C11_until_gap. Qed.
+Print Assumptions c11_wrapped_iterator_until_first_gap.
